@@ -66,6 +66,8 @@ def objdef_repr(d) -> str:
         return name + '(' + ', '.join(f'{k}={py_repr(v)}' for k, v in sorted(args.items())) + ')'
     if name == 'LabObjPlain':
         return f'LabObjPlain(x={py_repr(kw["x"])})'
+    if name == 'LabObjDerived':
+        return f'LabObjDerived(root={py_repr(kw["root"])})'      # the raw argument (kept in `_root`), never the derived public attribute
     if name == 'LabChainObj':
         return f'LabChainObj(a={py_repr(kw["a"])})'
     if name == 'LabObjSet':
